@@ -115,6 +115,8 @@ def run_long(item):
                     obs.append([k, pulled[0]])
                 state['last'] = [k, pulled[0]]
                 yield row
+                if item.get('head') and state['cnt'] >= item['head']:
+                    return          # a consumer that stops reading this resource early: nothing more may be pulled for it
         links = [src] + [m[x]() for x in item['prog']] + [sink]
         try:
             with contextlib.redirect_stdout(io.StringIO()), contextlib.redirect_stderr(io.StringIO()):
@@ -124,6 +126,8 @@ def run_long(item):
                 loadmod.Stream = Base
         if state['last'] and (not obs or obs[-1] != state['last']):
             obs.append(state['last'])
+        if item.get('head') and state['cnt'] >= item['head'] and obs[-1] != [state['last'][0], pulled[0]]:      # (only when the consumer itself stopped: a filter that finds no further row reads on)
+            obs.append([state['last'][0], pulled[0]])        # what had been pulled when the run was over, against the last row delivered
         return dict(id=item['id'], n=n, obs=obs)
     finally:
         shutil.rmtree(root, ignore_errors=True)
@@ -178,6 +182,12 @@ def run():
                 if source.startswith('csv'):
                     n = {300: 3000, 3000: 9000, 1000: 5000, 100000: 50000}[n]
                 items.append(dict(id='%d-%s-%d' % (i, source, n), pid='%d-%s' % (i, source), prog=p, n=n, source=source))
+    # a consumer that reads only the first rows of the resource (rows are pulled only as rows are delivered - also when delivery stops)
+    for it in [x for x in items if x['source'] == 'iterable'][::3]:
+        items.append(dict(it, id=it['id'] + '-head', pid=it['pid'] + '-head', head=5))
+    for j, p in enumerate((['stream'], ['checkpoint'], ['dump_to_path'], ['dump_to_zip'], ['printer'], ['set_type_a_number', 'stream'], ['filter_fn', 'checkpoint'])):
+        for n in sizes:
+            items.append(dict(id='h%d-iterable-%d-head' % (j, n), pid='h%d-iterable-head' % j, prog=p, n=n, source='iterable', head=5))
     items = {it['id']: it for it in items}.values()
     items = list(items)
     runs = pmap(run_long, items, chunksize=1)
